@@ -31,6 +31,7 @@ def handleLine (line : String) : String :=
     | "bufseq" => BufDrv.handle rest
     | "growth" => ExecDrv.handleGrowth rest
     | "exec" => ExecDrv.handleExec rest
+    | "unreg" => ExecDrv.handleUnreg rest
     | "step" => ExecDrv.handleStep rest
     | "scope" => (match rest with
       | [.atom pid] => String.intercalate " " ((ExecDrv.scopeOf pid).map Instr.str)
